@@ -2,7 +2,7 @@
 
 from hplverif.tape import from_tape
 
-from hplverif import astx, core, gen, lib, mast
+from hplverif import astx, core, gen, lib, mast, relatives
 from hplverif.core import Violation
 
 RULE = (
@@ -109,7 +109,15 @@ def cases(ch):
 def shard(ctx, shard_no, nshards, n):
     seen = {}
 
-    def body(inp):
+    def body(inp, relative=False):
+        if not relative and core.h64(inp['text']) % 4 == 0:
+            # afterwards, in the same process: close relatives of this text (equal numbers in the other spelling, aliases
+            # renamed, other annotations) - what a cache keyed by ==, hash or printed form would confuse with it
+            body(inp, True)
+            for t in relatives.texts(inp['text']):
+                ctx.count('relatives')
+                body({'kind': inp['kind'], 'text': t}, True)
+            return
         r = sub_roundtrip(inp)
         if r is None:
             ctx.count('rejected-by-parser')
